@@ -136,6 +136,9 @@ def muts_of(e):
     return [m for _, _, ms in parts(0, e) for m in ms]
 
 
+SCRIPTED = [scripted_history, two_app_history, signature_only_history]
+
+
 def install(specs, evos, version):
     evorig.install_models(specs[version])
     per = {}
@@ -202,30 +205,26 @@ def run(ctx):
     ctx.rule = ('linear histories V0..Vn (n<=3 quick, <=4 thorough) of one app (plus a two-app history whose apps reuse evolution labels), each step a generated evolution of 1-3 '
                 'mutations in SEQUENCE; for every start point i: stepwise and direct upgrades with identical initial rows, '
                 'and a fresh install of Vn; front ends Evolver.evolve, `evolve --execute`, `migrate`; non-trivial = n>=2')
-    nh = 16 if quick else 150
+    nh = 22 if quick else 150
     done = tries = 0
     opt_w = None
     noop_w = None
     while done < nh and tries < nh * 8 and ctx.time_left() > 40:
         tries += 1
         n = ctx.rng.randint(2, 3 if quick else 4)
-        if tries == 1:
-            h = scripted_history()
-            n = 3
-        elif tries == 2:
-            h = two_app_history()
-            n = 3
-        elif tries == 3:
-            h = signature_only_history()
+        if tries <= len(SCRIPTED) * 3:
+            # every scripted history through every front end
+            h = SCRIPTED[(tries - 1) // 3]()
             n = 3
         else:
             h = gen_history(ctx.rng, n)
         if h is None:
             continue
         specs, evos = h
-        how = ctx.rng.choice(['evolver', 'evolve', 'migrate'])
+        how = ['evolver', 'evolve', 'migrate'][(tries - 1) % 3] if tries <= len(SCRIPTED) * 3 else \
+            ctx.rng.choice(['evolver', 'evolve', 'migrate'])
         seed = ctx.seed * 613 + tries
-        rep = {'specs': specs if tries == 2 else [specs[0]], 'evolutions': evos, 'front_end': how, 'seed': seed}
+        rep = {'specs': specs if tries <= len(SCRIPTED) * 3 else [specs[0]], 'evolutions': evos, 'front_end': how, 'seed': seed}
         flat = [m for e in evos for m in muts_of(e)]
         # fresh install of Vn
         evorig.fresh_databases()
